@@ -730,6 +730,14 @@ class Forward:
             return self._switch(ch[-1], vg.cval(c), env)
         if k == 'CallExpr':
             nm = self.prog.callee_name(st)
+            if nm == 'memcpy' and len(children(st)) >= 4:
+                d = strip(children(st)[1])
+                if d.get('kind') == 'UnaryOperator' and d.get('opcode') == '&' and strip(children(d)[0]).get('kind') == 'DeclRefExpr':
+                    tgt = strip(children(d)[0])
+                    ln = self.ev(children(st)[3], env)
+                    if vg.is_const(ln) and vg.cval(ln) * 8 == width_of(tgt):
+                        env[self.lvalue_key(tgt, env)] = vg.load(self.ev(children(st)[2], env), width_of(tgt))   # an unaligned load
+                        return None
             if nm in ('memset', 'Decode', 'MD5_memset', 'memcpy'):
                 return None           # no effect on the tracked scalars (Decode fills the message words: symbols x[k])
             self.call(st, env)
